@@ -390,7 +390,7 @@ def header_calls(stmt: ast.AST) -> list[ast.Call]:
 
 
 def count_events(graph: 'CFG', start, end, weight: typing.Callable[[ast.AST], int], normal_only: bool = True,
-                 region: typing.Optional[set] = None) -> typing.Optional[tuple[int, int]]:
+                 region: typing.Optional[set] = None, exc_weight_zero: bool = True) -> typing.Optional[tuple[int, int]]:
     """(min, max) number of events over all paths start -> end, ignoring loop back edges (each loop body is counted
     once per entry); None when ``end`` is unreachable.  ``weight(stmt)`` = events performed by that CFG node.
     ``start``'s own weight is included, ``end``'s is not (unless end is a statement and start == end)."""
@@ -402,7 +402,7 @@ def count_events(graph: 'CFG', start, end, weight: typing.Callable[[ast.AST], in
             continue
         if region is not None and (u not in region or (v not in region and v != nb)):
             continue
-        g.add_edge(u, v)
+        g.add_edge(u, v, exc=bool(d.get('exc')))
     if na not in g or nb not in g:
         return None
     try:
@@ -419,7 +419,9 @@ def count_events(graph: 'CFG', start, end, weight: typing.Callable[[ast.AST], in
             st = graph.stmt(n)
             w = weight(st) if st is not None else 0
         for s in g.successors(n):
-            cand = (lo + w, hi + w)
+            # a statement left through an exceptional edge did not complete: its own events are not counted
+            ww = 0 if (exc_weight_zero and g.edges[n, s].get('exc')) else w
+            cand = (lo + ww, hi + ww)
             if s in best:
                 best[s] = (min(best[s][0], cand[0]), max(best[s][1], cand[1]))
             else:
